@@ -39,6 +39,8 @@ pub(crate) static mut PROTECTED: bool = false; // caller holds a guard under whi
 pub(crate) static mut QUIESCENT_WEAK: bool = false; // try_dealloc context: nobody else can reach the block while Wk == 0 (A-EBR)
 pub(crate) static mut EPOCH_READ: usize = 0;   // value returned by the stubbed global_epoch()
 pub(crate) static mut EPOCH_READS: u32 = 0;
+/// increments I left on the (dead) strong field of a DESTRUCTED object and have not taken back
+pub(crate) static mut MY_RESIDUE: u32 = 0;
 pub(crate) static mut LIN_WORD: u64 = 0;
 pub(crate) static mut MY_LAST_NEW: u64 = 0;      // word written by my last effective step
 fn word_after_my_step_strong() -> u32 { unsafe { State::from_raw(MY_LAST_NEW).strong() } }       // word observed by my last RMW / CAS-success / final load (linearisation point)
@@ -126,6 +128,9 @@ pub(crate) fn rely(w0: u64, g0: &Ledger, w1: u64, g1: &Ledger, my: &Shares) -> b
                                        && g1.popped == g0.popped && g1.dropped == g0.dropped))
         // try_dealloc context (A-EBR): with Wk == 0 nobody else can reach the block
         && (!unsafe { QUIESCENT_WEAK } || a.weak() != 0 || w1 == w0)
+        // the strong field of a destructed object is zero when DESTRUCTED is set (the CAS observes zero) and from then on
+        // only counts the increments of failed upgrades not yet taken back, each thread taking back only its own
+        && (!b.destructed() || b.strong() >= unsafe { MY_RESIDUE })
 }
 
 // ------------------------------------------------------------------------------------------------
@@ -169,12 +174,16 @@ unsafe fn my_step(a: &AtomicU64, old: u64, new: u64) {
     } else if weak_same && n.destructed() == p.destructed() && n.strong() as u64 == p.strong() as u64 + 1 && (n.epoch() == p.epoch() || stamp_fresh) {
         // T_inc: strong + 1 (possibly refreshing the stamp)
         if p.destructed() {
-            // counting on a destructed object: harmless, owns nothing
+            // counting on a destructed object: owns nothing - and must be taken back (C04: failed upgrades leave no trace)
+            MY_RESIDUE += 1;
         } else if p.strong() == 0 {
             // the missing token of the pending attempt (S = O + P is re-established: 1 = 0 + 1)
         } else {
             L.o += 1; MY.o += 1;
         }
+    } else if weak_same && p.destructed() && n.destructed() && n.epoch() == p.epoch() && n.strong() + 1 == p.strong() && MY_RESIDUE >= 1 {
+        // T_undo: I take back an increment I left on a destructed object
+        MY_RESIDUE -= 1;
     } else if weak_same && n.destructed() == p.destructed() && n.strong() < p.strong() {
         // T_dec: strong - c, stamped with the epoch read before the step
         let c = p.strong() - n.strong();
@@ -443,6 +452,7 @@ fn rg_increment_strong_unguarded() {
         assert!(lin.destructed(), "C05.upgrade.failure_only_if_destructed");
     }
     assert!(MY.wn == 1 && !L.freed, "C03.upgrade.weak_share_untouched");
+    assert!(MY_RESIDUE == 0, "C04.upgrade.failed_upgrade_leaves_no_trace_on_the_count_word");
     assert!(inv_h(rd(&(*p).state), &L), "C01.upgrade.exit_invariant");
     kani::cover!(r && STEPS >= 2, "cover.upgrade.from_zero");
     kani::cover!(!r, "cover.upgrade.fails");
